@@ -54,7 +54,7 @@ fn wire_len(resp: &Response) -> usize {
 
 async fn run(case: &Case, rep: &mut CaseReport) -> Option<(String, String)> {
     reset_globals();
-    let max = case.max_nodes.map(|m| m.clamp(1, 20) as usize);
+    let max = case.max_nodes.map(|m| m.clamp(1, 120) as usize);
     let mut s = Svc::new(SvcConfig {
         key_idx: 0,
         mode: if case.dual { Mode::Dual } else { Mode::Ip4 },
@@ -305,14 +305,23 @@ impl Property for C14 {
                 .prop_map(|(enr_seq, id, requester, port0)| Step::Ping { enr_seq, id, requester, port0 }),
             1 => any::<u8>().prop_map(Step::EnrInsert),
         ];
-        (
+        let ordinary = (
             any::<bool>(),
             proptest::collection::vec((any::<u16>(), prop_oneof![3 => Just(300u16), 1 => Just(100u16), 2 => 100u16..=300]), 0..60),
             prop_oneof![3 => Just(None), 1 => (1u8..=20).prop_map(Some)],
             proptest::collection::vec(step, 1..8),
         )
-            .prop_map(|(dual, entries, max_nodes, steps)| Case { dual, entries, max_nodes, steps })
-            .boxed()
+            .prop_map(|(dual, entries, max_nodes, steps)| Case { dual, entries, max_nodes, steps });
+        // a large configured maximum and a large table: answers of many packets
+        let big_step = (id(), req_strategy(), any::<bool>()).prop_map(|(id, requester, all)| Step::FindNode { ds: if all { (240..=256u64).collect() } else { vec![256, 255, 254, 253, 252] }, id, requester });
+        let big = (
+            any::<bool>(),
+            proptest::collection::vec((any::<u16>(), prop_oneof![4 => Just(300u16), 1 => 100u16..=300]), 70..130),
+            (46u8..=120).prop_map(Some),
+            proptest::collection::vec(big_step, 1..3),
+        )
+            .prop_map(|(dual, entries, max_nodes, steps)| Case { dual, entries, max_nodes, steps });
+        prop_oneof![30 => ordinary, 1 => big].boxed()
     }
     fn run(case: &Case) -> CaseReport {
         let mut rep = CaseReport::default();
@@ -323,7 +332,7 @@ impl Property for C14 {
         rep
     }
     fn rule() -> String {
-        "a real Discv5 service with a scripted handler (IPv4 or dual stack, max_nodes_response default 16 or 1..20) whose table holds 0..59 signed pool records of 100..300 bytes (60% exactly 300 bytes) in the reachable buckets; 1..7 injected requests: FINDNODE with distance lists that are empty / duplicated / unsorted / contain 0, 256, values > 256 (assertion-free) / up to 400 entries / the d,d+1,d-1 lists lookups generate, request ids of 0..8 bytes, requester = a stored node, a stranger, an IPv6 stranger; PING with arbitrary enr_seq from a normal source or source port 0; local record changes in between. Oracle on the HandlerIn::Response values the service emits: N1 id, destination, total = number of packets >= 1; N2 local record iff 0 requested, every other record is the stored record of a table entry at a requested distance, never the requester's, no duplicates, at most max_nodes_response, at least min(eligible, max[-1]); N3 each packet, encoded with the real message codec and wrapped as a message datagram with the real packet codec, is <= 1280 bytes; G1 exactly one PONG with the request id, the current local seq and the observed source ip/port; none for port 0. Non-trivial = >=4 records of >=280 bytes forcing a split, or distance 0 together with other distances.".into()
+        "a real Discv5 service with a scripted handler (IPv4 or dual stack, max_nodes_response default 16 or 1..20; one case in 31: 46..120 with a table of 70..129 records and requests for 5 or 17 distances, i.e. answers of up to ~40 packets) whose table holds 0..59 signed pool records of 100..300 bytes (60% exactly 300 bytes) in the reachable buckets; 1..7 injected requests: FINDNODE with distance lists that are empty / duplicated / unsorted / contain 0, 256, values > 256 (assertion-free) / up to 400 entries / the d,d+1,d-1 lists lookups generate, request ids of 0..8 bytes, requester = a stored node, a stranger, an IPv6 stranger; PING with arbitrary enr_seq from a normal source or source port 0; local record changes in between. Oracle on the HandlerIn::Response values the service emits: N1 id, destination, total = number of packets >= 1; N2 local record iff 0 requested, every other record is the stored record of a table entry at a requested distance, never the requester's, no duplicates, at most max_nodes_response, at least min(eligible, max[-1]); N3 each packet, encoded with the real message codec and wrapped as a message datagram with the real packet codec, is <= 1280 bytes; G1 exactly one PONG with the request id, the current local seq and the observed source ip/port; none for port 0. Non-trivial = >=4 records of >=280 bytes forcing a split, or distance 0 together with other distances.".into()
     }
     fn assumptions() -> Vec<String> {
         vec![
